@@ -285,6 +285,30 @@ def sweep_c05(rng, tier):
             cases.append(("%02d.%02d.%d um %02d:%02d uhr" % (d, m, y, h, mi), ts, {})); exp.append(T(y, m, d, h, mi)); fam.append("+um hh:mm uhr")
             cases.append(("%02d:%02d %02d.%02d.%d" % (h, mi, d, m, y), ts, {})); exp.append(T(y, m, d, h, mi)); fam.append("hh:mm +")
     recs = parse_many(cases)
+    # overlapping parses (this process, deterministic): a stream over text A is suspended after its first candidate, a text B of
+    # the same notation (same layout, other numbers) is parsed completely, then A is resumed - A's best candidate is still A's date
+    from realparse import _init as _ri
+    _ri()
+    from ctparse import ctparse_gen as _gen
+    from codec import enc_val as _ev
+    byfam = collections.defaultdict(list)
+    for c, e, f in zip(cases, exp, fam):
+        if not callable(e): byfam[f].append((c, e))
+    for f, lst in byfam.items():
+        for _ in range(6 if tier == "thorough" else 2):
+            (ca, ea), (cb, eb) = rng.sample(lst, 2) if len(lst) >= 2 else (lst[0], lst[0])
+            if ea == eb: continue
+            try:
+                g = _gen(ca[0], ts=datetime(*ca[1]), timeout=0)
+                got = [next(g, None)]
+                list(_gen(cb[0], ts=datetime(*cb[1]), timeout=0))
+                got += list(g)
+                got = [x for x in got if x is not None]
+                best = max(got, key=lambda x: x.score) if got else None
+                rec = {"err": None, "res": None if best is None else _ev(best.resolution)}
+            except Exception as ex:
+                rec = {"err": "%s: %s" % (type(ex).__name__, str(ex)[:60]), "res": None}
+            cases.append((ca[0], ca[1], {"overlapping_parse": cb[0], "schedule": "A x1, B complete, A rest"})); exp.append(ea); fam.append("overlap: " + f); recs.append(rec)
     return finish("C05", cases, exp, recs, "valid dates 1990-2029 x numeric and month-name notations (month words from the pattern language) x clock suffix x 3 of 9 reference times; "
                   "month-name notations skipped when the year reads as a valid military time (computed from the library's own heuristic)", families=fam)
 
@@ -585,6 +609,15 @@ def sweep_c20(rng, tier):
                 for form in ["%s %s", "%s at %s", "%s um %s", "rev"]:
                     for _ in range(reps):
                         combos.append((rng.choice(ds), rng.choice(cs), ts, form, dn + " x " + cn))
+    # separator stratum (C11 at the junction): the blank between the two parts written as any separator the normalisation
+    # knows - incl. invisible format characters - must not keep the parts from being glued
+    junctions = [",", ";", "\t", "\u00a0", "\u200b", "\ufeff", "\u2060", "\u200e", "\u00ad", " (", ") ", "  ", "\u2028", "\u180e", "\x00"]
+    ts_j = (2021, 3, 5, 18, 0, 0)
+    dayf_j, clockf_j = c20_families(rng, ts_j)
+    for dn, ds in dayf_j.items():
+        for cn, cs in clockf_j.items():
+            j = rng.choice(junctions)
+            combos.append((rng.choice(ds), rng.choice(cs), ts_j, rng.choice(["%s" + j + "%s", "rev" + j]), "junction U+%04X " % ord(j.strip() or j[0]) + dn + " x " + cn))
     # lexical adjacency stratum: every word of the small day families next to a form of every clock family, both orders, at a
     # reference time late in the day (so that a clock that lost its day cannot land on the right day by coincidence)
     late = (2020, 2, 28, 23, 59, 30)
@@ -609,18 +642,21 @@ def sweep_c20(rng, tier):
         if not (td and tc and td["y"] is not None and td["h"] is None and td["pod"] is None and tc["h"] is not None and tc["y"] is None):
             skipped["solo-not-applicable"] += 1
             continue
-        txt = ("%s %s" % (c, d)) if form == "rev" else form % (d, c)
+        if form.startswith("rev") and len(form) > 3:
+            txt = c + form[3:] + d
+        else:
+            txt = ("%s %s" % (c, d)) if form == "rev" else form % (d, c)
         # the property's own exclusion: 12:xx directly followed by German "am <day>"
-        if form == "rev" and c.startswith("12") and d.startswith("am "):
+        if form.startswith("rev") and c.startswith("12") and d.startswith("am "):
             skipped["excluded-by-property"] += 1
             continue
         # a clock ending in a number directly followed by a day form starting with a month name or a number is itself a date
         # notation ('9 dec 24' = 9 December '24, '8 5.' ...): genuinely ambiguous juxtaposition, not asked
         months_flat = {w for ws in G.month_words() for w in ws}
-        if form == "rev" and c[-1].isdigit() and (d[0].isdigit() or d.split(" ")[0].lower() in months_flat):
+        if form.startswith("rev") and c[-1].isdigit() and (d[0].isdigit() or d.split(" ")[0].lower() in months_flat):
             skipped["ambiguous-number+date-juxtaposition"] += 1
             continue
-        cases.append((txt, ts, {})); exp.append(T(td["y"], td["m"], td["d"], tc["h"], tc["mi"])); fam.append(("clock first: " if form == "rev" else form + ": ") + famname)
+        cases.append((txt, ts, {})); exp.append(T(td["y"], td["m"], td["d"], tc["h"], tc["mi"])); fam.append(("clock first: " if form.startswith("rev") else form + ": ") + famname)
     recs = parse_many(cases)
     r = finish("C20", cases, exp, recs, "every (day family x clock family x order/connector) at several reference times incl. the boundary 'named weekday = weekday of the reference day'; expected = date the day part alone "
                "resolves to at hour:minute the clock part alone denotes (latent off); combinations whose parts alone are not a pure date / pure clock are skipped (counted)", families=fam)
